@@ -55,16 +55,24 @@ func (d *intDecoder) parseInt(b []byte) (int64, error) {
 	if maxDigit > pow10i64Len {
 		return 0, fmt.Errorf("invalid length of number")
 	}
-	sum := int64(0)
+	// at most 19 digits: the magnitude always fits uint64, so that a
+	// literal beyond the int64 range is detected instead of wrapping around.
+	sum := uint64(0)
 	for i := 0; i < maxDigit; i++ {
-		c := int64(b[i]) - 48
-		digitValue := pow10i64[maxDigit-i-1]
+		c := uint64(b[i]) - 48
+		digitValue := uint64(pow10i64[maxDigit-i-1])
 		sum += c * digitValue
 	}
 	if isNegative {
-		return -1 * sum, nil
+		if sum > 1<<63 {
+			return 0, fmt.Errorf("number is out of range of int64")
+		}
+		return -int64(sum), nil
 	}
-	return sum, nil
+	if sum > 1<<63-1 {
+		return 0, fmt.Errorf("number is out of range of int64")
+	}
+	return int64(sum), nil
 }
 
 var (
